@@ -24,10 +24,15 @@ def enu_great_circle(clat, clon, plat, plon):
     return d * math.cos(brg), d * math.sin(brg)
 
 
+def wrap_lon(x10):
+    """Longitude (or longitude difference) in 1/10 microdegree folded into [-180, 180) degrees."""
+    return (int(x10) + 1800000000) % 3600000000 - 1800000000
+
+
 def enu_equirect(clat, clon, plat, plon):
-    """(north, east) metres, equirectangular around the centre latitude (no antimeridian wrap)."""
+    """(north, east) metres, equirectangular around the centre latitude; the longitude difference is taken the short way round."""
     f1, f2 = _rad(clat), _rad(plat)
-    return R * (f2 - f1), R * (_rad(plon) - _rad(clon)) * math.cos(f1)
+    return R * (f2 - f1), R * _rad(wrap_lon(plon - clon)) * math.cos(f1)
 
 
 def destination(clat, clon, north, east):
@@ -41,7 +46,7 @@ def destination(clat, clon, north, east):
     f2 = math.asin(max(-1.0, min(1.0, math.sin(f1) * math.cos(ang) + math.cos(f1) * math.sin(ang) * math.cos(brg))))
     l2 = l1 + math.atan2(math.sin(brg) * math.sin(ang) * math.cos(f1), math.cos(ang) - math.sin(f1) * math.sin(f2))
     lat = int(round(math.degrees(f2) * 1e7))
-    lon = int(round(math.degrees(l2) * 1e7))
+    lon = wrap_lon(int(round(math.degrees(l2) * 1e7)))
     return lat, lon
 
 
@@ -69,10 +74,8 @@ def F(shape, a, b, along, across):
 
 def verdict(shape, a, b, azimuth, clat, clon, plat, plon, rel_tol=0.03, abs_tol=2.0):
     """'inside' / 'outside' when both projections agree with margin, else None (tolerance band,
-    projection disagreement, antimeridian or polar neighbourhood)."""
+    projection disagreement or polar neighbourhood); areas across the antimeridian are judged like any other."""
     if abs(clat) > 850000000 or abs(plat) > 850000000:
-        return None
-    if abs(plon - clon) > 1790000000:
         return None
     res = []
     for proj in (enu_great_circle, enu_equirect):
